@@ -95,6 +95,7 @@ func C31(e *simkern.Env) {
 	maxRetries := tp.Pick(2, 1, 0, 3, 5, 10)
 	retryDelay := time.Duration(tp.Pick(50, 500, 0)) * time.Millisecond
 	echoURL := tp.Bool(1, 2)
+	clientPolicy := tp.Bool(1, 3)
 	nFetch := 1 + tp.Draw(2)
 	if e.Tier == "thorough" {
 		nFetch = 1 + tp.Draw(3)
@@ -108,6 +109,7 @@ func C31(e *simkern.Env) {
 	e.Knob("retry_delay_ms", int(retryDelay/time.Millisecond))
 	e.Knob("validator_echoes_url", echoURL)
 	e.Knob("fetches", nFetch)
+	e.Knob("client_has_own_redirect_policy", clientPolicy)
 
 	var sample []string
 	left := e.Bubble(func() {
@@ -255,14 +257,38 @@ func C31(e *simkern.Env) {
 				f.body = f.raw
 				if tp.Bool(1, 2) {
 					f.body, f.enc = fetchw.Zstd(f.raw), "zstd"
+					if tp.Bool(1, 3) {
+						// a legal zstd stream of two or three concatenated frames
+						// (what a chunk-wise compressing uploader or CDN produces);
+						// it decodes to the same payload
+						sim.Fault("multi-frame-zstd")
+						k := 1 + tp.Draw(len(f.raw)-1)
+						f.body = append(fetchw.Zstd(f.raw[:k]), fetchw.Zstd(f.raw[k:])...)
+						if k > 2 && tp.Bool(1, 2) {
+							j := 1 + tp.Draw(k-1)
+							f.body = append(append(fetchw.Zstd(f.raw[:j]), fetchw.Zstd(f.raw[j:k])...), fetchw.Zstd(f.raw[k:])...)
+						}
+					}
 				}
 				f.chunked = tp.Bool(1, 3)
 				n := int64(len(f.body))
 				f.maxFetch = []int64{1 << 20, n, n + 1, n - 1, n / 2}[tp.Weighted([]int{5, 2, 1, 2, 1})]
 				m := int64(len(f.raw))
 				f.maxDecmp = []int64{1 << 20, m, m + 1, m - 1, m / 2}[tp.Weighted([]int{5, 2, 1, 2, 1})]
+				hc := origin.Client()
+				if clientPolicy {
+					// the operator's client has a redirect policy of its own (a
+					// harmless one: it tags the hop); the validator and the limit
+					// must hold regardless
+					own := *hc
+					own.CheckRedirect = func(req *http.Request, via []*http.Request) error {
+						req.Header.Set("X-Sim-Hop", fmt.Sprint(len(via)))
+						return nil
+					}
+					hc = &own
+				}
 				cfg := &vgirpc.ExternalLocationConfig{
-					URLValidator: validator, MaxRetries: maxRetries, RetryDelay: retryDelay, HTTPClient: origin.Client(),
+					URLValidator: validator, MaxRetries: maxRetries, RetryDelay: retryDelay, HTTPClient: hc,
 					MaxFetchBytes: f.maxFetch, MaxDecompressedBytes: f.maxDecmp, MaxRedirects: maxRedirects,
 				}
 				sha := ""
@@ -345,12 +371,12 @@ func init() {
 	Registry["C31"] = &Info{
 		Run:   C31,
 		Level: "exploration",
-		Rule:  "each run draws max_redirects {1,2,3,5}, max_retries {0,1,2,3,5,10}, the retry delay, whether the harness validator echoes the URL in its error, and 1-3 concurrent fetches; every fetch draws a URL shape (userinfo, port, fragment, bare query, escapes, upper-case scheme) with unique secrets in query and userinfo, an IPC payload raw or zstd with or without Content-Length, and fetch / decompression caps at, just under, just over or far from the actual sizes; the origin draws per attempt a redirect chain of 0-8 hops (allowed hosts, forbidden hosts, http scheme, absolute / scheme-relative / path-relative Location, statuses 301-308) ending in 200 / 503 / 404 / connect error / body cut; retry delays elapse on the simulated clock; distinct = distinct schedule fingerprint (every origin request is a scheduling point); non-trivial = a redirect or retry happened or two fetches interleaved",
+		Rule:  "each run draws max_redirects {1,2,3,5}, max_retries {0,1,2,3,5,10}, the retry delay, whether the harness validator echoes the URL in its error, and 1-3 concurrent fetches; every fetch draws a URL shape (userinfo, port, fragment, bare query, escapes, upper-case scheme) with unique secrets in query and userinfo, an IPC payload raw or zstd (one, two or three concatenated frames) with or without Content-Length, an HTTP client with or without a redirect policy of its own, and fetch / decompression caps at, just under, just over or far from the actual sizes; the origin draws per attempt a redirect chain of 0-8 hops (allowed hosts, forbidden hosts, http scheme, absolute / scheme-relative / path-relative Location, statuses 301-308) ending in 200 / 503 / 404 / connect error / body cut; retry delays elapse on the simulated clock; distinct = distinct schedule fingerprint (every origin request is a scheduling point); non-trivial = a redirect or retry happened or two fetches interleaved",
 		Real:  []string{"vgirpc.ResolveExternalLocation, fetchExternalData (CheckRedirect, caps), decompressZstdCapped, redactExternalURL", "net/http.Client redirect machinery", "klauspost zstd decoder", "testing/synctest clock (retry delays)"},
 		Stub:  []string{"origin behind http.RoundTripper (fetchw.Origin)", "URL validator (allow list of hosts + https)"},
 		Quick: 2400, Thorough: 400000,
 		Warm:       warmFetch,
-		FaultKinds: []string{"connect-error", "http-5xx", "not-found", "body-cut", "forbidden-redirect", "forbidden-initial-url", "redirect-beyond-limit", "oversize-body", "oversize-decoded"},
+		FaultKinds: []string{"connect-error", "http-5xx", "not-found", "body-cut", "forbidden-redirect", "forbidden-initial-url", "redirect-beyond-limit", "oversize-body", "oversize-decoded", "multi-frame-zstd"},
 		Assumptions: []string{
 			"attempt bound = min(max_retries+1, 3) for max_retries >= 1 and 3 (the stated cap) for max_retries = 0 (library default)",
 			"an attempt = a request not caused by a redirect (http.Request.Response == nil); redirects followed are counted per attempt",
